@@ -62,6 +62,13 @@ Theorem C07_joint_value_depends :
 Proof. exact joint_value_depends_lemma. Qed.
 Print Assumptions C07_joint_value_depends.
 
+(* A sub-context pairwise seed (the source of a signing sub-quorum's zero shares) is an injective
+   function of the parent pairwise seed bytes and the sub-quorum: it changes when they change. *)
+Theorem C07_sub_seed_depends : forall p1 q1 p2 q2,
+  sub_seed_term p1 q1 = sub_seed_term p2 q2 -> p1 = p2 /\ q1 = q2.
+Proof. exact sub_seed_depends. Qed.
+Print Assumptions C07_sub_seed_depends.
+
 (* The session-id term determines the multiset of (id, contribution) pairs. *)
 Theorem C07_sid_term_determines : forall cs cs', sid_term cs = sid_term cs' -> Permutation cs cs'.
 Proof. exact sid_term_determines. Qed.
